@@ -1296,7 +1296,7 @@ macro_rules! bd5_ack {
         }
     };
 }
-//@ props: C02
+//@ props: C02 C01
 //@ tier: quick
 //@ functions: v5 decode::decode_packet, PublishAck::decode, ack_props::decode, take_properties, Option<T>::read_value, UserProperty::decode
 //@ bounds: every body of 0..=7 arbitrary bytes
@@ -1312,7 +1312,7 @@ bd5_ack!(bd5_puback, 0x40, spec_puback_reason, Packet::PublishAck, 7, false);
 //@ mem: 10  timeout: 1500
 //@ desc: v5 PUBACK body: whatever is accepted is stable (re-encode, decode again, equal)
 bd5_ack!(bd5_puback_st, 0x40, spec_puback_reason, Packet::PublishAck, 7, true);
-//@ props: C02
+//@ props: C02 C01
 //@ tier: quick
 //@ functions: v5 decode::decode_packet, PublishAck2::decode, ack_props::decode
 //@ bounds: every body of 0..=7 arbitrary bytes
